@@ -20,10 +20,11 @@ def main():
         txt = txt.replace(seeddir, WT)
     dst = os.path.join("/verif/seeded", name)
     os.makedirs(dst, exist_ok=True)
-    open(os.path.join(dst, "demo.py"), "w").write(txt)
-    shutil.copy(os.path.join(src, "patch.diff"), dst)
-    if os.path.exists(os.path.join(src, "notes.md")):
-        shutil.copy(os.path.join(src, "notes.md"), dst)
+    if os.path.realpath(src) != os.path.realpath(dst):      # re-confirmation runs straight from /verif/seeded/<name>
+        open(os.path.join(dst, "demo.py"), "w").write(txt)
+        shutil.copy(os.path.join(src, "patch.diff"), dst)
+        if os.path.exists(os.path.join(src, "notes.md")):
+            shutil.copy(os.path.join(src, "notes.md"), dst)
     meta = dict(property=pids.split(",")[0], checks_run=pids.split(","), repo_head=head[:7])
     try:
         info = json.load(open("/verif/tools/seed_info.json")).get(name, {})
